@@ -430,6 +430,10 @@ def assembly(ctx: Ctx, rule: str):
     er = sm.func("atoms.py", "Expression.resolve")
     rets = [norm(n.value) for n in ast.walk(er.node) if isinstance(n, ast.Return)]
     ctx.check(rets == ["build_expression(self.tree, symbols=symbols)"], rule, er.key(), "build_expression(self.tree, symbols)", f"Expression.resolve returns {rets}", er.where())
+    from sa import av as _av
+
+    from . import util
+
     T = tm.TemplateModel(sm)
     mt = T.func("templates/python.py", "method")
     a = mt.node.args
@@ -437,8 +441,10 @@ def assembly(ctx: Ctx, rule: str):
     okn = "nan_to_num" not in dflt or (isinstance(dflt["nan_to_num"], ast.Constant) and dflt["nan_to_num"].value is False)
     passed = [f.qualname for f in sm.funcs_in("codegen/base.py") for c in ast.walk(f.node) if isinstance(c, ast.Call) and call_kw(c, "nan_to_num") is not None]
     ctx.check(okn and not passed, rule, mt.key("nan_to_num"), "results are returned as computed (no nan_to_num)", f"the python method template replaces NaN results by 0 (default {norm(dflt.get('nan_to_num')) if 'nan_to_num' in dflt else None}, passed by {passed})", mt.where())
-    rets = [fstring_skeleton(n.value.args[0]) for n in ast.walk(mt.node) if isinstance(n, ast.Assign) and norm(n.targets[0]) == "indent_return" and isinstance(n.value, ast.Call) and n.value.args]
-    ctx.check("return {return_name}" in rets, rule, mt.key("return"), "return <result array>", f"python method template returns {rets}", mt.where())
+    sk = util.skeleton(ctx, rule, "templates/python.py", "method", {"nan_to_num": _av.C(False)} if "nan_to_num" in mt.params else None)
+    if sk is not None:
+        last = [ln.strip() for ln in sk.raw.splitlines() if ln.strip()][-1]
+        ctx.check(last == "return {return_name}", rule, mt.key("return"), "return <result array>", f"python method template ends with `{last}` (by default), not with `return <result array>`", mt.where())
     dp = sm.func("codegen/base.py", "CodeGenerator._doprint")
     rets = [norm(n.value) for n in ast.walk(dp.node) if isinstance(n, ast.Return)]
     okd = "self.printer.doprint(Assignment(lhs, rhs))" in rets and any(fstring_skeleton(n.value) == "{self.variable_prefix}{self.printer.doprint(Assignment(lhs, rhs))}" for n in ast.walk(dp.node) if isinstance(n, ast.Return))
